@@ -19,6 +19,7 @@ class Emitter:
         self.fn_ranges = []   # (start, end, fn name, src file, src line)
         self.vacuity = []     # vacuity twins (must fail)
         self.twins = []
+        self.parts = []       # %opt split: verified copies of one function, each proving a subset of its ensures
         self.assumed_contracts = []
         self.imported_lemmas = []
 
@@ -239,7 +240,7 @@ def splice_body(em_obls, body, fspec, unit, fname, rw):
             auto_inv, auto_dec = None, None
             if r8:
                 n8 = int(re.search(r'R8:(\d+)', out[r8[0]].text).group(1))
-                auto_inv = '__more%d ==> __next%d <= __hi%d, __lo%d <= __next%d' % (n8, n8, n8, n8, n8)
+                auto_inv = R8_INV % ((n8,) * R8_INV.count('%d'))
                 auto_dec = '(if __more%d { (__hi%d - __next%d + 1) as int } else { 0 })' % (n8, n8, n8)
                 out[r8[0]] = T('ws', ' ', out[r8[0]].start)
             if ls.get('invariant') or auto_inv:
@@ -339,10 +340,15 @@ def splice_body(em_obls, body, fspec, unit, fname, rw):
     for t_ in body:
         if t_.kind == 'r8mark':
             n8 = int(re.search(r'R8:(\d+)', t_.text).group(1))
-            out.append(T('raw', '\n        invariant __more%d ==> __next%d <= __hi%d, __lo%d <= __next%d,\n        decreases (if __more%d { (__hi%d - __next%d + 1) as int } else { 0 })\n    ' % (n8, n8, n8, n8, n8, n8, n8, n8), t_.start))
+            out.append(T('raw', '\n        invariant ' + (R8_INV % ((n8,) * R8_INV.count('%d'))) + ',\n        decreases (if __more%d { (__hi%d - __next%d + 1) as int } else { 0 })\n    ' % (n8, n8, n8), t_.start))
         else:
             out.append(t_)
     return out
+
+
+# R8 auto-invariant: __doneN counts the epochs already handed to the body; they are exactly __loN <= e < __loN + __doneN
+R8_INV = ('__more%d ==> __next%d <= __hi%d && __next%d as int == __lo%d + __done%d, __lo%d <= __next%d, __done%d >= 0, '
+          '!__more%d ==> __done%d == (if __hi%d >= __lo%d { __hi%d - __lo%d + 1 } else { 0 })')
 
 
 def desugar_incl_ranges(body, fspec, rw):
@@ -378,9 +384,9 @@ def desugar_incl_ranges(body, fspec, rw):
                 be = match_close(out, bo)
                 n = n_done
                 head = ('{ let mut __next%d: u64 = %s; let __hi%d: u64 = %s; let ghost __lo%d: u64 = __next%d; '
-                        'let mut __more%d: bool = __next%d <= __hi%d;\n    ' % (n, lo, n, hi, n, n, n, n, n))
-                first = (' let %s = __next%d; if __next%d == __hi%d { __more%d = false; } else { __next%d = __next%d + 1; }\n'
-                         % (pat, n, n, n, n, n, n))
+                        'let mut __more%d: bool = __next%d <= __hi%d; let ghost mut __done%d: int = 0;\n    ' % (n, lo, n, hi, n, n, n, n, n, n))
+                first = (' let %s = __next%d; proof { __done%d = __done%d + 1; } if __next%d == __hi%d { __more%d = false; } else { __next%d = __next%d + 1; }\n'
+                         % (pat, n, n, n, n, n, n, n, n))
                 rw.rec('R8', text_of(out[k:bo]), 'while-loop over __next%d..=__hi%d' % (n, n))
                 new = ([T('raw', head, t.start), T('ident', 'while', t.start), T('raw', ' __more%d ' % n, t.start), T('r8mark', '/*R8:%d*/' % n, t.start)] + [out[bo]]
                        + [T('raw', first, out[bo].start)] + out[bo + 1:be + 1] + [T('raw', ' }', out[be].start)])
@@ -652,6 +658,36 @@ def build_unit(unit, outdir):
         src = open(p).read()
         em.emit(src)
         collect_lemma_obligations(em, unit['name'], sp, src, base)
+    for pt in em.parts:
+        em.emit('// ---------------- %%opt split: %s proves a subset of the ensures of %s over the same extracted body' % (pt['part'], pt['fn']))
+        em.emit('mod %s_mod {' % pt['part'])
+        em.emit('use super::*;')
+        em.emit('verus! {')
+        base = em.lineno
+        for ln in pt['lines']:
+            em.emit(ln)
+        end = em.lineno - 1
+        em.emit('} // verus!')
+        em.emit('}')
+        src_line = 0
+        for (a, b, nm, src, sl, kind) in em.fn_ranges:
+            if nm == pt['fn'] and kind == 'fn':
+                src_line = sl
+        em.fn_ranges.append((base, end, pt['fn'], pt['src'], src_line, 'fn-part'))
+        for ob in em.obls:
+            if ob['fn'] != pt['fn'] or ob['unit'] != pt['unit'] or ob.get('gen_start') is not None:
+                continue
+            if ob.get('split') and ob['label'] in pt['clause_lines']:
+                a, b = pt['clause_lines'][ob['label']]
+                ob['gen_start'], ob['gen_end'] = base + a, base + b
+            elif not ob.get('split') and pt['first'] and ob.get('text'):
+                for k in range(base, end + 1):
+                    if ob['text'] + ',' == em.lines[k - 1].strip():
+                        ob['gen_start'] = ob['gen_end'] = k
+                        break
+    for ob in em.obls:
+        if ob.get('gen_start') is None and ob.get('kind') != 'lemma' and any(pt['fn'] == ob['fn'] for pt in em.parts):
+            raise ExtractError('could not place clause %s' % ob['name'])
     if em.twins:
         em.emit('// ---------------- vacuity twins (each MUST fail: `ensures false` behind the same requires and body)')
         em.emit('mod vacuity_twins {')
@@ -760,9 +796,12 @@ def emit_fn(em, unit, it, toks, fspec, path, src_text, rw):
     head_txt = text_of(head)
     if it.get('make_pub') and not head_txt.lstrip().startswith('pub'):
         head_txt = 'pub ' + head_txt
-    if it.get('external_body'):
+    split = bool(fspec and fspec.opts.get('split') and not it.get('external_body'))
+    if split and it.get('impl_of'):
+        raise ExtractError('%opt split is only supported on free functions: ' + name)
+    if it.get('external_body') or split:
         em.emit('#[verifier::external_body]')
-    if fspec and fspec.opts.get('rlimit'):
+    if fspec and fspec.opts.get('rlimit') and not split:
         em.emit('#[verifier::rlimit(%s)]' % fspec.opts['rlimit'])
     em.emit_tokens([T('raw', head_txt, toks[0].start)], path, src_text)
     if rt.startswith('->'):
@@ -784,7 +823,16 @@ def emit_fn(em, unit, it, toks, fspec, path, src_text, rw):
         em.emit('    unimplemented!()')
         em.emit('}')
         return
-    if fspec and fspec.body_start:
+    if split:
+        # the primary keeps the whole contract for its callers (and for its own recursive calls) but its body is proved in
+        # the part copies below: same requires, same mechanically extracted body, each with a subset of the ensures clauses
+        em.emit('    unimplemented!()')
+        em.emit('}')
+        for ob in em.obls[n_before:]:
+            if ob['kind'] == 'ensures':
+                ob['gen_start'] = ob['gen_end'] = None
+                ob['split'] = True
+    if fspec and fspec.body_start and not split:
         for ln in fspec.body_start:
             em.emit(ln)
     body = anf_split_try_map_filter(body, rw)
@@ -809,11 +857,57 @@ def emit_fn(em, unit, it, toks, fspec, path, src_text, rw):
                         em.obls.append({'name': '%s::%s::closure%d.%s' % (unit, lname, ordinal, label), 'unit': unit, 'fn': lname,
                                         'label': label, 'tags': tags, 'kind': 'closure-' + kw, 'text': ' '.join(x.strip() for x in c.rstrip().rstrip(',').split('\n')),
                                         'gen_start': None, 'gen_end': None})
+    if split:
+        groups = [[x.strip() for x in g.split('+') if x.strip()] for g in fspec.opts['split'].split('|')]
+        named = set(x for g in groups for x in g)
+        labels = [l for (l, _t, _c) in fspec.ensures if l]
+        for x in named:
+            if x not in labels:
+                raise ExtractError('%%opt split of %s names an unknown ensures label: %s' % (name, x))
+        groups = [[l for (l, _t, _c) in fspec.ensures if l not in named]] + groups
+        unl = [c for c in fspec.ensures if not c[0]]
+        for gi, g in enumerate(groups):
+            pl = []
+            if fspec.opts.get('rlimit'):
+                pl.append('#[verifier::rlimit(%s)]' % fspec.opts['rlimit'])
+            ph = re.sub(r'\bfn\s+' + re.escape(name) + r'\b', 'fn __part%d_%s' % (gi, name), head_txt, count=1)
+            if rt.startswith('->'):
+                ph += ' -> (%s: %s)' % (retname, rt[2:].strip())
+            pl.append(ph)
+            if where:
+                pl.append('    ' + where)
+            if fspec.requires:
+                pl.append('    requires')
+                for (label, tags, txt) in fspec.requires:
+                    pl.append('        ' + ' '.join(x.strip() for x in txt.rstrip().rstrip(',').split('\n')) + ',')
+            cl = {}
+            mine = [c for c in fspec.ensures if (c[0] in g) or (gi == 0 and not c[0])]
+            if mine:
+                pl.append('    ensures')
+                for (label, tags, txt) in mine:
+                    a = len(pl)
+                    for ln in txt.rstrip().rstrip(',').split('\n'):
+                        pl.append('        ' + ln.strip())
+                    pl[-1] += ','
+                    if label:
+                        cl[label] = (a, len(pl) - 1)
+            if fspec.opts.get('decreases'):
+                pl.append('    decreases ' + fspec.opts['decreases'])
+            pl.append('{')
+            pl += list(fspec.body_start)
+            bstart = len(pl)
+            pl += text_of(body).split('\n')
+            pl.append('}')
+            em.parts.append({'fn': lname, 'unit': unit, 'part': '__part%d_%s' % (gi, name), 'lines': pl, 'clause_lines': cl, 'body_rel': bstart,
+                             'src': it['src'], 'first': gi == 0})
     first = em.lineno
-    em.emit_tokens(body, path, src_text)
-    em.emit('}')
+    if not split:
+        em.emit_tokens(body, path, src_text)
+        em.emit('}')
     # resolve line ranges of invariant / closure clauses by text search inside the emitted body
     for ob in em.obls:
+        if split:
+            break
         if ob.get('gen_start') is None and ob['fn'] == lname and ob['unit'] == unit:
             for ln in range(first, em.lineno):
                 if ob['text'] and ob['text'] + ',' == em.lines[ln - 1].strip():
